@@ -11,11 +11,17 @@ Whole sources (section Sources): `source_counts_against_the_limit`, `history_cou
 history of sources on the session model (Model/Session.lean), built, rejected and unwound, or failed at run time, with
 everything their meta blocks execute while they are being built, the meter never goes down and never passes the limit;
 these need no well-formedness hypothesis (Proofs/VMMeter.lean, SessionMeter.lean).
+`source_respects_stack_and_heap_limits`, `history_respects_stack_and_heap_limits` — the same for the other two limits:
+with a stack limit S and a heap limit H, after any history of sources the data stack holds at most `max S (before)`
+cells and the heap at most `max H (before)`, and the limits themselves are untouched — compiling `var` included (the
+only thing that allocates: Proofs/CompileHeap.lean), unwinding included; again for every session, no well-formedness
+assumed (Proofs/VMBound.lean, generated from VMMeter.lean; Proofs/SessionBound.lean).
 
 The set_*_limit calls themselves are `{ m with insnLimit := …, meter := 0 }` etc.; variables are
 allocated while a source is built (`allocHeap`), never by a running instruction.
 -/
 import XehModel.Proofs.SessionMeter
+import XehModel.Proofs.SessionBound
 import XehModel.Proofs.VMRev2
 import XehModel.Props.C02
 
@@ -190,6 +196,45 @@ theorem run_counts_against_the_limit (fuel : Nat) (m : Mach) (r : R Unit) (h : M
     r.2.insnLimit = m.insnLimit ∧ m.meter ≤ r.2.meter ∧ ∀ N, m.insnLimit = some N → m.meter ≤ N → r.2.meter ≤ N := by
   have b := Mach.run_mle np fuel m r h
   exact ⟨b.limit, b.mono, b.bound⟩
+
+/-- **one source under a stack limit S and a heap limit H**: whatever becomes of it (built and run, rejected and
+    unwound, failed at run time), with everything its meta blocks execute and every variable it declares: the limits
+    are what they were, the data stack holds at most `max S (cells before)` cells and the variable heap at most
+    `max H (cells before)`.  In particular an interpreter that starts within its limits stays within them.
+    Every session, every source, every mode; no well-formedness hypothesis. -/
+theorem source_respects_stack_and_heap_limits (fuel : Nat) (mode : Mode) (toks : List Compile.Tok) (s s' : Sess)
+    (h : after (s.buildSource fuel mode toks) = some s') :
+    s'.m.stackLimit = s.m.stackLimit ∧ s'.m.heapLimit = s.m.heapLimit ∧
+    (∀ S, s.m.stackLimit = some S → s'.m.ds.length ≤ max S s.m.ds.length) ∧
+    (∀ H, s.m.heapLimit = some H → s'.m.heap.length ≤ max H s.m.heap.length) := by
+  have b := buildSource_bound fuel mode toks s
+  revert b h
+  cases s.buildSource fuel mode toks with
+  | done x => intro h b; cases h; exact b
+  | rejected e x => intro h b; cases h; exact b
+  | failed e x => intro h b; cases h; exact b
+  | panic p x => intro h b; cases h; exact b
+  | unsupported u => intro h; cases h
+  | timeout => intro h; cases h
+
+/-- **any history of sources** -/
+theorem history_respects_stack_and_heap_limits (fuel : Nat) (srcs : List (Mode × List Compile.Tok)) :
+    ∀ (s s' : Sess), history fuel srcs s = some s' →
+      s'.m.stackLimit = s.m.stackLimit ∧ s'.m.heapLimit = s.m.heapLimit ∧
+      (∀ S, s.m.stackLimit = some S → s'.m.ds.length ≤ max S s.m.ds.length) ∧
+      (∀ H, s.m.heapLimit = some H → s'.m.heap.length ≤ max H s.m.heap.length) := by
+  induction srcs with
+  | nil => intro s s' h; cases h; exact SB.refl _
+  | cons x rest ih =>
+    intro s s' h
+    obtain ⟨mode, toks⟩ := x
+    simp only [history] at h
+    split at h
+    · rename_i s1 h1
+      have a : SB s.m s1.m := source_respects_stack_and_heap_limits fuel mode toks s s1 h1
+      have b : SB s1.m s'.m := ih s1 s' h
+      exact a.trans b
+    · cases h
 
 /-- non-vacuity, in the situation the property is about: limit 10; a source whose meta block executes four
     instructions and which is then rejected (unknown word `foo`): what it compiled is gone (code length 0 again), the
